@@ -483,6 +483,7 @@ type FuncContract struct {
 	Pure      bool
 	Options   map[string]string
 	GhostSets []*Clause // "ghostset x.f = expr" applied at exit
+	EnsuresPanic []*Clause
 	File      string
 	Line      int
 }
@@ -783,6 +784,8 @@ func ParseContractFile(path string, pkg string) (*ContractFile, error) {
 				cur.Panics = append(cur.Panics, c)
 			case "ghostset":
 				cur.GhostSets = append(cur.GhostSets, c)
+			case "ensures-panic":
+				cur.EnsuresPanic = append(cur.EnsuresPanic, c)
 			}
 		case "loop":
 			if cur == nil {
